@@ -43,7 +43,7 @@ CLAIMED = {
    tech="AST->z3 VC generation with reduction/convolution specification axioms (deductive) + bounded native stand-in"),
  "C03": dict(cat="other", ref="DESIGN.md 4/C03",
    text="One symbolic iteration of the real window loop of _process_NP24 (read -> _ind2save -> _split2shanks): the block appended to each shank's AP file is exactly the original int16 samples [a_j,b_j) of that shank's columns + sync, "
-        "for every window index/size, recording length, processed length (init_params(nsamples) <= file length) and shank map; ranges tile [0,ns) (lemma over C17's contract); value exactness under the binary32 rounding model for every volts-per-bit factor; reconstruction loop body scatters every column back; init_params: by default the whole recording, and the window / overlap / taper / ratio the window harnesses assume (a window that is not a multiple of 12 is refused; for every calibrated sampling rate of the probe); integer lists of the metadata written back as plain digits (C09 contract re-checked).",
+        "for every window index/size, recording length, processed length (init_params(nsamples) <= file length) and shank map; ranges tile [0,ns) (lemma over C17's contract); value exactness under the binary32 rounding model for every volts-per-bit factor; reconstruction loop body scatters every column back; init_params: by default the whole recording, and the window / overlap / taper / ratio the window harnesses assume (a window that is not a multiple of 12 is refused; for every calibrated sampling rate of the probe); integer lists of the metadata written back as plain digits (C09 contract re-checked); output preparation for every shank map, ids not 0..n-1 included (C04 contract re-checked).",
    note="Channel lists (where(shank==s)+sync, partition) are a precondition; metadata, channel-subset strings and end-to-end bytes (all 65536 values x catalogued gains, non-contiguous / interleaved shank maps, nsamples < file length, channel-subset strings through a metadata file) are a bounded stand-in on real files. Re-checks C17's generator contract. A-FPSTD for the value obligation.",
    tech="AST->z3 VC generation, generator contract reuse, standard floating-point error model (deductive) + bounded end-to-end"),
  "C12": dict(cat="other", ref="DESIGN.md 4/C12",
@@ -53,7 +53,7 @@ CLAIMED = {
    tech="AST->z3 VC generation with an opaque-filter summary (deductive) + bounded numeric stand-in"),
  "C06": dict(cat="other", ref="DESIGN.md 4/C06",
    text="One symbolic batch of the real per-worker loop (nested my_function located by name, free variables symbolic): file position before each write, rows == kept range with the documented taper margins, sync columns bit-identical, "
-        "saturation slice (flags computed on the calibrated samples as read, before tapering), RMS/timestamp positions, loop invariant position == f(batch index), padding; the same for float32 output with the byte sizes computed by executing the set-up statements (positions in bytes of the output type); the worker's start batch and boundary formulas; lemmas: batches tile [0,ns), consecutive workers leave no gap, writes are position-determined.",
+        "saturation slice (flags computed on the calibrated samples as read, before tapering), RMS/timestamp positions, loop invariant position == f(batch index), padding; the same for float32 output with the byte sizes computed by executing the set-up statements (positions in bytes of the output type); the set-up statements that create / size the files under the ghost file system: a fresh run truncates output, RMS and timestamp files, an appending run starts each at its current end, the per-sample saturation file is created with or without the rms (F-C06-2, repaired); the worker's start batch and boundary formulas; lemmas: batches tile [0,ns), consecutive workers leave no gap, writes are position-determined.",
    note="All filtering is opaque (shapes only); saturation() through C16's contract; joblib schedules are not modelled (position-determinism is what is proved); byte identity across worker counts (incl. more workers than batches) / QC lengths via the bounded stand-in with a NumPy/SciPy shim for pyfftw. F-C06-1 (phantom batch) was repaired: a worker whose first batch is not real returns at once, proved to touch nothing and to lose nothing.",
    tech="AST->z3 VC generation on a nested closure with ghost file positions + arithmetic lemmas (deductive) + bounded native stand-in"),
  "C02": dict(cat="other", ref="DESIGN.md 4/C02",
@@ -82,8 +82,8 @@ CLAIMED = {
    note="A-FFT (shapes, linearity; contents opaque), A-MATH (three facts about cos). Equality with direct convolution / FFT on the impulse basis is a bounded stand-in. F-C18-1 (ns_optim_fft above its table) and F-C18-3 (3-D, axis 0) were repaired.",
    tech="AST->z3 VC generation with FFT shape/Hermitian specification axioms (deductive) + bounded impulse-basis stand-in"),
  "C05": dict(cat="other", ref="DESIGN.md 4/C05",
-   text="car: exactly one channel-axis reduction with the requested operator is subtracted, per-collection == per-group; kfilt/fk recursion over collections forwards every setting; kfilt body: gain control only when a window is given, mirrored padding, padding rows dropped and gain multiplied back; destripe data-flow: high-pass -> fshift by +sample_shift along time -> interpolation -> "
-        "spatial filter on rows with label != 3, sync untouched; destripe called twice with the same settings dictionaries: the spatial step and the high-pass get exactly the caller's settings both times and the dictionaries are left as given; agc: out*gain == in wherever the returned gain is not zero, data untouched where it is zero, gain >= 0 (stated on the returned values only); the ADC delay tables destripe re-aligns with: C08's exhaustive table contract re-checked.",
+   text="car: exactly one channel-axis reduction with the requested operator is subtracted, per-collection == per-group; kfilt/fk recursion over collections forwards every setting, hands each group over as its own channels in order and puts the result back on its rows; kfilt body: gain control only when a window is given, mirrored padding, padding rows dropped and gain multiplied back; destripe data-flow: high-pass -> fshift by +sample_shift along time -> interpolation -> "
+        "spatial filter on rows with label != 3, sync untouched; destripe called twice with the same settings dictionaries: the spatial step and the high-pass get exactly the caller's settings both times and the dictionaries are left as given; agc: out*gain == in wherever the returned gain is not zero, data untouched where it is zero, gain >= 0 (stated on the returned values only); the ADC delay tables destripe re-aligns with: C08's exhaustive table contract and C15's interpolation contract (only good / outside-brain channels are sources) re-checked.",
    note="median/mean are opaque reductions with translation equivariance (A-NP-SPEC); butter/sosfiltfilt/fshift/convolve opaque with shapes (A-SCIPY/A-FFT). 40 dB stripe attenuation / 90 % spike retention are numeric: bounded stand-in on synthetic stripes.",
    tech="AST->z3 VC generation with call-log data-flow obligations and modular recursion contracts (deductive) + bounded numeric stand-in"),
  "C07": dict(cat="other", ref="DESIGN.md 4/C07",
